@@ -1,12 +1,13 @@
-from ..engine import Case
-from . import c10
+from . import _agg
 
 
 def cases(tier):
-    out = []
-    out += c10.vec_cases(tier, prefix='c11', checks='safety', leak=True, sizes=[1, 3] if tier == 'quick' else [1, 2, 3, 8], maxes=[0, 1, 3] if tier == 'quick' else [0, 1, 2, 3, 4], timeout=600)
-    return out
+    return _agg.cases(tier, 'safety')
 
 
 def meta(tier):
-    return {'level': 'model_checking', 'bounds': 'wip', 'explanation': 'wip'}
+    return _agg.meta(tier, 'safety',
+                     'The one-step queries of C01-C10 re-run with CBMC pointer/bounds/overflow/shift/division checks, the memcpy-overlap precondition, free() validity and --memory-leak-check; '
+                     'each harness ends by releasing the container and asserting the allocation ledger is back to its base, so a pass means: for every pre-state and argument within the bound no out-of-object access, '
+                     'no use after free, no overlapping memcpy, no leak.',
+                     outside=['whatever is outside the bounds of C01-C10', 'pointer-overflow UB that forms but never dereferences an out-of-bounds pointer (no sanitizer confirms that class)'])
